@@ -117,7 +117,7 @@ Proof.
     + apply NM_obs_m; auto.
     + apply NM_flat_map. intros q Hin. apply Hq; auto.
   - apply closed_app in C as [Ci Co]. cbn [wf] in Hwf. destruct (IHp Hwf rho drop Ci) as [H1 H2].
-    split; [|apply NM_nil]. apply NM_app; split; auto.
+    split; [|exact H2]. apply NM_app; split; auto.
     destruct (wave p rho drop); [apply NM_obs_r; apply closed_kept; auto|apply NM_nil].
   - apply closed_app in C as [Ci Co]. cbn [wf] in Hwf. destruct (IHp Hwf rho drop Ci) as [H1 H2].
     split; auto. apply NM_app; split; auto.
